@@ -47,6 +47,22 @@ pub fn run<C: Ciphersuite, L: Lab<C>>(lab: &mut L, p: &Params) {
             no_panic!(lab, "sign on an empty signing package", fc::round2::sign(&empty, &sess.nonces[&me], &keys.0[&me]));
             no_panic!(lab, "aggregate on an empty signing package", fc::aggregate(&empty, &sigshares, &keys.1));
             no_panic!(lab, "aggregate with no shares", fc::aggregate(&sess.package, &BTreeMap::new(), &keys.1));
+            // the empty package with every form of recorded threshold, and standalone share verification on it
+            for min in [None, Some(0u16), Some(1), Some(p.t)] {
+                let pk = PublicKeyPackage::<C>::new(keys.1.verifying_shares().clone(), *keys.1.verifying_key(), min);
+                let modes = || [fc::CheaterDetection::Disabled, fc::CheaterDetection::FirstCheater, fc::CheaterDetection::AllCheaters];
+                for (m, m2) in modes().into_iter().zip(modes()) {
+                    no_panic!(lab, "aggregate: empty signing package, empty share map", fc::aggregate_custom(&empty, &BTreeMap::new(), &pk, m2));
+                    no_panic!(lab, "aggregate: one-entry signing package, its one share", {
+                        let mut one_c = BTreeMap::new();
+                        one_c.insert(me, sess.commitments[&me]);
+                        let mut one_s = BTreeMap::new();
+                        one_s.insert(me, sigshares[&me]);
+                        fc::aggregate_custom(&fc::SigningPackage::<C>::new(one_c, &msg), &one_s, &pk, m)
+                    });
+                }
+            }
+            no_panic!(lab, "verify_signature_share on an empty signing package", fc::verify_signature_share(me, &keys.1.verifying_shares()[&me], &sigshares[&me], &empty, keys.1.verifying_key()));
             let mut one = BTreeMap::new();
             one.insert(me, sess.commitments[&me]);
             let single = fc::SigningPackage::<C>::new(one, &msg);
